@@ -2,6 +2,7 @@ package checks
 
 import (
 	"fmt"
+	"os"
 	"sort"
 	"strings"
 	"sync"
@@ -334,6 +335,35 @@ func C04() int {
 			st = append(st, second...)
 			st = append(st, c04Show(), Print{Args: []Expr{StrLit{V: "end"}, Var{"n"}}})
 			all = append(all, item{fmt.Sprintf("stmt=%s then=%s traced=all ctx=top", t1.name, t2.name), &Prog{Stmts: st}})
+		}
+	}
+	{ // bind the interpreter's evaluation order to the Go toolchain for the statement kinds whose Go meaning
+		// is the same (no growing slice writes, no string subscripts (Go yields bytes), no file builtins, and no
+		// tracer inside && / || / a condition chain / case expressions, which TypeShell evaluates eagerly by design)
+		goSame := map[string]bool{"binary+": true, "binary-": true, "binary*": true, "binary/": true, "binary%": true, "compare-int<": true, "compare-int==": true,
+			"compare-string": true, "compare-bool": true, "not": true, "nested-arith": true, "grouped-arith": true, "left-assoc-sub": true, "call-args": true,
+			"call-stmt-args": true, "nested-calls": true, "slice-read-index": true, "slice-read-two": true, "slice-literal": true, "print-args": true, "return-values": true,
+			"define-multi": true, "define-var-typed": true, "assign-multi": true, "compound-assign": true, "for-header": true, "for-header-continue": true,
+			"for-condition-only": true, "len-string": true, "len-slice": true, "itoa": true, "string-concat": true}
+		var conf []*Prog
+		for _, it := range all {
+			name := strings.TrimPrefix(strings.Fields(it.key)[0], "stmt=")
+			if !goSame[name] {
+				continue
+			}
+			if f := strings.Fields(it.key); len(f) > 1 && strings.HasPrefix(f[1], "then=") && !goSame[strings.TrimPrefix(f[1], "then=")] {
+				continue
+			}
+			conf = append(conf, it.prog)
+		}
+		compared, problems := goConformance(conf, 400)
+		r.Set("traces_validated_against_go_toolchain", compared)
+		if len(problems) > 0 {
+			for _, p := range problems {
+				fmt.Fprintln(os.Stderr, "MODEL CONFORMANCE:", p)
+			}
+			fmt.Fprintln(os.Stderr, "HARNESS ERROR: the reference interpreter does not agree with the Go toolchain on generated programs; nothing is judged")
+			return 2
 		}
 	}
 	r.Set("statement_templates", len(tm))
